@@ -816,7 +816,9 @@ class HistWorld(World):
     # ------------------------------------------------------------------ bookkeeping
     def observe(self):
         st = simlib.get_state(self.sim)
-        return [[st[k] for k in sorted(st)], self.sim.Niter, self.folder, self.disk.listing()]
+        # (file names and emptiness only: pickle sizes depend on process-global name counters of geometric objects,
+        #  e.g. "Line12" vs "Line7" inside a beam structure, i.e. on what the process built before this run)
+        return [[st[k] for k in sorted(st)], self.sim.Niter, self.folder, {k: bool(v) for k, v in self.disk.listing().items()}]
 
     def abstract_state(self):
         return (self.type, self.algo["algo"], len(self.snaps), self.folder, self.mesh_i, len(self.mesh_list), sorted(self.saved), self.solved)
